@@ -6,18 +6,26 @@
 LOCAL INSTANCE Integers
 LOCAL NoNum == 0 - 1000
 CatalogueMsgs == <<
-  [kind |-> "call", idk |-> "num", id |-> [t |-> "num", v |-> "1", n |-> 1], blen |-> 50, rlen |-> 50],
-  [kind |-> "notify", idk |-> "none", id |-> [t |-> "none", v |-> "", n |-> NoNum], blen |-> 44, rlen |-> 43],
-  [kind |-> "call", idk |-> "str", id |-> [t |-> "str", v |-> "x%E2%82%ACy", n |-> NoNum], blen |-> 74, rlen |-> 68],
-  [kind |-> "response", idk |-> "num", id |-> [t |-> "num", v |-> "7", n |-> 7], blen |-> 40, rlen |-> 37],
-  [kind |-> "response", idk |-> "str", id |-> [t |-> "str", v |-> "id-%C3%BC", n |-> NoNum], blen |-> 52, rlen |-> 49],
-  [kind |-> "response", idk |-> "num", id |-> [t |-> "num", v |-> "2147483647", n |-> 2147483647], blen |-> 76, rlen |-> 75],
-  [kind |-> "notify", idk |-> "none", id |-> [t |-> "none", v |-> "", n |-> NoNum], blen |-> 178, rlen |-> 178],
-  [kind |-> "call", idk |-> "num", id |-> [t |-> "num", v |-> "0", n |-> 0], blen |-> 58, rlen |-> 58],
-  [kind |-> "call", idk |-> "str", id |-> [t |-> "str", v |-> "7", n |-> 7], blen |-> 53, rlen |-> 52],
-  [kind |-> "response", idk |-> "str", id |-> [t |-> "str", v |-> "42", n |-> 42], blen |-> 41, rlen |-> 41],
-  [kind |-> "response", idk |-> "str", id |-> [t |-> "str", v |-> "007", n |-> 7], blen |-> 69, rlen |-> 69],
-  [kind |-> "call", idk |-> "str", id |-> [t |-> "str", v |-> "-1", n |-> 0 - 1], blen |-> 54, rlen |-> 54],
-  [kind |-> "response", idk |-> "num", id |-> [t |-> "num", v |-> "-12", n |-> 0 - 12], blen |-> 41, rlen |-> 41]
+  [kind |-> "call", idk |-> "num", id |-> [t |-> "num", v |-> "1", n |-> 1], pay |-> "string", blen |-> 50, rlen |-> 50],
+  [kind |-> "notify", idk |-> "none", id |-> [t |-> "none", v |-> "", n |-> NoNum], pay |-> "string", blen |-> 44, rlen |-> 43],
+  [kind |-> "call", idk |-> "str", id |-> [t |-> "str", v |-> "x%E2%82%ACy", n |-> NoNum], pay |-> "string", blen |-> 74, rlen |-> 68],
+  [kind |-> "response", idk |-> "num", id |-> [t |-> "num", v |-> "7", n |-> 7], pay |-> "string", blen |-> 40, rlen |-> 37],
+  [kind |-> "response", idk |-> "str", id |-> [t |-> "str", v |-> "id-%C3%BC", n |-> NoNum], pay |-> "object", blen |-> 52, rlen |-> 49],
+  [kind |-> "response", idk |-> "num", id |-> [t |-> "num", v |-> "2147483647", n |-> 2147483647], pay |-> "error", blen |-> 76, rlen |-> 75],
+  [kind |-> "notify", idk |-> "none", id |-> [t |-> "none", v |-> "", n |-> NoNum], pay |-> "string", blen |-> 178, rlen |-> 178],
+  [kind |-> "call", idk |-> "num", id |-> [t |-> "num", v |-> "0", n |-> 0], pay |-> "null", blen |-> 58, rlen |-> 58],
+  [kind |-> "call", idk |-> "str", id |-> [t |-> "str", v |-> "7", n |-> 7], pay |-> "string", blen |-> 53, rlen |-> 52],
+  [kind |-> "response", idk |-> "str", id |-> [t |-> "str", v |-> "42", n |-> 42], pay |-> "string", blen |-> 41, rlen |-> 41],
+  [kind |-> "response", idk |-> "str", id |-> [t |-> "str", v |-> "007", n |-> 7], pay |-> "error", blen |-> 69, rlen |-> 69],
+  [kind |-> "call", idk |-> "str", id |-> [t |-> "str", v |-> "-1", n |-> 0 - 1], pay |-> "null", blen |-> 54, rlen |-> 54],
+  [kind |-> "response", idk |-> "num", id |-> [t |-> "num", v |-> "-12", n |-> 0 - 12], pay |-> "string", blen |-> 41, rlen |-> 41],
+  [kind |-> "response", idk |-> "num", id |-> [t |-> "num", v |-> "8", n |-> 8], pay |-> "null", blen |-> 38, rlen |-> 38],
+  [kind |-> "response", idk |-> "str", id |-> [t |-> "str", v |-> "s%C3%A9v", n |-> NoNum], pay |-> "null", blen |-> 43, rlen |-> 42],
+  [kind |-> "response", idk |-> "num", id |-> [t |-> "num", v |-> "9", n |-> 9], pay |-> "array", blen |-> 47, rlen |-> 46],
+  [kind |-> "response", idk |-> "num", id |-> [t |-> "num", v |-> "10", n |-> 10], pay |-> "number", blen |-> 39, rlen |-> 39],
+  [kind |-> "response", idk |-> "str", id |-> [t |-> "str", v |-> "t", n |-> NoNum], pay |-> "true", blen |-> 40, rlen |-> 40],
+  [kind |-> "response", idk |-> "num", id |-> [t |-> "num", v |-> "11", n |-> 11], pay |-> "false", blen |-> 40, rlen |-> 40],
+  [kind |-> "response", idk |-> "num", id |-> [t |-> "num", v |-> "12", n |-> 12], pay |-> "errdata", blen |-> 109, rlen |-> 109],
+  [kind |-> "call", idk |-> "num", id |-> [t |-> "num", v |-> "13", n |-> 13], pay |-> "object", blen |-> 59, rlen |-> 59]
 >>
 =============================================================================
